@@ -124,11 +124,31 @@ def defaults_probe(schema):
         raise RuntimeError("introspection failed: %s" % res.errors[0])
     bad = []
 
+    def strict(node, type_):
+        """literal coercion is lenient about unknown keys of object literals: a reported default must not mention any"""
+        from py_gql.lang import ast as A
+        from py_gql.schema import InputObjectType, ListType, NonNullType
+        while isinstance(type_, NonNullType):
+            type_ = type_.type
+        if isinstance(node, A.ListValue) and isinstance(type_, ListType):
+            for x in node.values:
+                strict(x, type_.type)
+        elif isinstance(type_, ListType):
+            strict(node, type_.type)
+        elif isinstance(node, A.ObjectValue) and isinstance(type_, InputObjectType):
+            fm = type_.field_map
+            for f in node.fields:
+                if f.name.value not in fm:
+                    raise ValueError("the literal mentions %s.%s, which the schema does not declare" % (type_.name, f.name.value))
+                strict(f.value, fm[f.name.value].type)
+
     def one(owner, text, type_):
         if text is None:
             return
         try:
-            value_from_ast(parse_value(text), type_)
+            node = parse_value(text)
+            value_from_ast(node, type_)
+            strict(node, type_)
         except Exception as e:
             bad.append((owner, text, "%s: %s" % (type(e).__name__, str(e)[:120])))
     for t in res.data["__schema"]["types"]:
